@@ -21,6 +21,14 @@ def main():
     tier = "thorough" if a.tier == "thorough" else "quick"
     mod = importlib.import_module("props." + a.prop.lower())
     rep = Report(a.prop, tier, a.seed)
+    rep.replay = None
+    if a.replay:
+        import json
+        rp = Path(a.replay)
+        rp = rp if rp.is_absolute() else (common.ROOT / rp)
+        rep.replay = json.loads(rp.read_text())
+        if not isinstance(rep.replay.get("case"), dict):
+            rep.replay = None      # a broken obligation without a concrete input: the whole check is the replay
     rng = random.Random(a.seed * 1000003 + 17)
     thms = []
     obligations = discharged = 0
